@@ -397,10 +397,13 @@ def finish(prop, tier, proof, oc, t0, level="proof", checker_cmd=None, trusted=N
     os.makedirs(EVID, exist_ok=True)
     with open(os.path.join(EVID, prop + ".json"), "w") as f:
         json.dump(ev, f, indent=1, default=repr)
+    # the verdict goes to the process's real standard output: `quiet()` swaps sys.stdout, and a thread of the code under
+    # test that is still blocked inside it (a deadlock is one of the things C11 looks for) would swallow the lines
+    out = sys.__stdout__
     for l in lines:
-        print(l)
+        print(l, file=out)
     if exit_code == 0:
         print("OK property=%s tier=%s obligations=%d discharged=%d evaluations=%d nontrivial=%d wall=%.1fs" % (
-            prop, tier, proof["obligations"], proof["discharged"], oc.evaluations, len(oc.nontrivial), time.time() - t0))
-    sys.stdout.flush()
+            prop, tier, proof["obligations"], proof["discharged"], oc.evaluations, len(oc.nontrivial), time.time() - t0), file=out)
+    out.flush()
     return exit_code
